@@ -9,7 +9,7 @@ ALPHABETS = {
     # (add with an explicit id includes adding an id again: a new job only if the old one was killed)
     "C16": {"ticks": (60, 200), "readd": 1},
     # extended with wait / re-add / stats (+ finish by a third party, info updates)
-    "C17": {"ticks": (60, 200, 4000), "finx": 1, "readd": 1, "wait": 1, "addwait": 1, "setinfo": 1,
+    "C17": {"ticks": (60, 200, 4000), "finx": 1, "readd": 1, "readdx": 1, "wait": 1, "addwait": 1, "setinfo": 1,
             "addauto": 1},
     # restart with and without downtime (the clock moves while the server is stopped)
     "C18": {"ticks": (60, 200), "finx": 1, "readd": 1, "wait": 1, "restart": 1, "addauto": 1,
